@@ -141,6 +141,27 @@ def keysFor (h : Hashes) (v1 : Bool) (prefix_ key : String) (body : J) : Except 
 def serveSeq (h : Hashes) (v1 : Bool) (prefix_ key : String) (bodies : List J) : List (Except Err (List String)) :=
   bodies.map (keysFor h v1 prefix_ key)
 
+/-! ### the marker the storages write (`StorageKeyMarkingConvention._store_marker`) -/
+
+/-- `prefix and not prefix.startswith('kopf.')` -/
+def writesMarker (prefix_ : String) : Bool := prefix_ != "" && !("kopf.".toList.isPrefixOf prefix_.toList)
+
+def markerKey (prefix_ : String) : String := prefix_ ++ "/kopf-managed"
+
+/-- `_store_marker(prefix, patch, body)` on the annotations of the body and of the patch being built:
+    every `store`/`touch` of an annotations storage ends with it. -/
+def storeMarker (prefix_ : String) (bodyAnn patchAnn : List (String × J)) : List (String × J) :=
+  if writesMarker prefix_ && !(keys bodyAnn).contains (markerKey prefix_) && !(keys patchAnn).contains (markerKey prefix_)
+  then insert (markerKey prefix_) (.str "yes") patchAnn
+  else patchAnn
+
+/-- the raw last-handled value `AnnotationsDiffBaseStorage.fetch` finds (before `json.loads`): the
+    first of the keys formed for this body that is present and not null. -/
+def fetchRaw (ks : List String) (anns : List (String × J)) : Option J :=
+  ks.findSome? (fun k => match lookup k anns with
+    | some .null => none
+    | o => o)
+
 /-! ### dict helpers -/
 
 /-- `dicts.resolve(d, path)` without a default. -/
